@@ -239,28 +239,6 @@ fn observe(parser: &mut NetflowParser, bytes: &[u8], n: usize, want_s: bool) -> 
     out
 }
 
-fn run_on_small_stack<F: FnOnce() -> String + Send>(stack: usize, f: F) -> String {
-    std::thread::scope(|sc| {
-        let h = std::thread::Builder::new()
-            .stack_size(stack)
-            .spawn_scoped(sc, move || match catch_unwind(AssertUnwindSafe(f)) {
-                Ok(s) => s,
-                Err(e) => {
-                    let msg = if let Some(s) = e.downcast_ref::<&str>() {
-                        s.to_string()
-                    } else if let Some(s) = e.downcast_ref::<String>() {
-                        s.clone()
-                    } else {
-                        "?".to_string()
-                    };
-                    format!("{{\"PANIC\":{}}}", jstr(&msg))
-                }
-            })
-            .unwrap();
-        h.join().unwrap_or_else(|_| "{\"PANIC\":\"join\"}".to_string())
-    })
-}
-
 fn nums(s: &str) -> Vec<u64> {
     if s == "-" {
         return vec![];
@@ -451,24 +429,69 @@ fn main() {
     // silence the default panic hook (panics are reported in the observation)
     std::panic::set_hook(Box::new(|_| {}));
     let f = std::fs::File::open(&args[2]).expect("ops file");
-    let mut parsers: BTreeMap<u32, NetflowParser> = BTreeMap::new();
-    let out = std::io::stdout();
-    let mut n = 0usize;
+    // group the ops by CASE; every case runs start to finish on ONE thread with the small stack
+    // (so thread-local state, if the crate ever grows any, lives as long as in a real collector
+    // thread), with fresh parsers
+    let mut cases: Vec<(String, Vec<String>)> = vec![];
     for line in std::io::BufReader::new(f).lines() {
         let line = line.unwrap();
-        let line = line.trim();
+        let line = line.trim().to_string();
         if line.is_empty() || line.starts_with('#') {
             continue;
         }
+        if line.starts_with("CASE") {
+            cases.push((line, vec![]));
+        } else {
+            if cases.is_empty() {
+                cases.push(("CASE 0 implicit".to_string(), vec![]));
+            }
+            cases.last_mut().unwrap().1.push(line);
+        }
+    }
+    let counter = std::sync::atomic::AtomicUsize::new(0);
+    for (header, ops) in &cases {
+        {
+            let out = std::io::stdout();
+            let mut o = out.lock();
+            writeln!(o, "{}", header).unwrap();
+            o.flush().unwrap();
+        }
+        let counter = &counter;
+        std::thread::scope(|sc| {
+            let h = std::thread::Builder::new()
+                .stack_size(stack)
+                .spawn_scoped(sc, move || run_case(ops, counter))
+                .unwrap();
+            let _ = h.join();
+        });
+    }
+    let out = std::io::stdout();
+    let mut o = out.lock();
+    writeln!(o, "END {}", counter.load(Ordering::Relaxed)).unwrap();
+}
+
+fn guarded<F: FnOnce() -> String>(f: F) -> String {
+    match catch_unwind(AssertUnwindSafe(f)) {
+        Ok(s) => s,
+        Err(e) => {
+            let msg = if let Some(s) = e.downcast_ref::<&str>() {
+                s.to_string()
+            } else if let Some(s) = e.downcast_ref::<String>() {
+                s.clone()
+            } else {
+                "?".to_string()
+            };
+            format!("{{\"PANIC\":{}}}", jstr(&msg))
+        }
+    }
+}
+
+fn run_case(ops: &[String], counter: &std::sync::atomic::AtomicUsize) {
+    let out = std::io::stdout();
+    let mut parsers: BTreeMap<u32, NetflowParser> = BTreeMap::new();
+    for line in ops {
         let tok: Vec<&str> = line.split_whitespace().collect();
         match tok[0] {
-            "CASE" => {
-                // start of a new case: fresh parsers
-                parsers.clear();
-                let mut o = out.lock();
-                writeln!(o, "CASE {}", tok[1..].join(" ")).unwrap();
-                o.flush().unwrap();
-            }
             "P" => {
                 parsers.insert(tok[1].parse().unwrap(), NetflowParser::default());
             }
@@ -485,15 +508,16 @@ fn main() {
                 let k: u32 = tok[1].parse().unwrap();
                 let bytes = unhex(tok[2]);
                 let p = parsers.entry(k).or_default();
+                let n = counter.fetch_add(1, Ordering::Relaxed);
                 {
                     let mut o = out.lock();
                     writeln!(o, "BEGIN {}", n).unwrap();
                     o.flush().unwrap();
                 }
                 let s = if tok[0] == "B" {
-                    run_on_small_stack(stack, || observe(p, &bytes, n, true))
+                    guarded(|| observe(p, &bytes, n, true))
                 } else {
-                    run_on_small_stack(stack, || {
+                    guarded(|| {
                         let a = p.parse_bytes_as_netflow_common_flowsets(&bytes);
                         format!(
                             "{{\"n\":{},\"F\":[{}]}}",
@@ -505,24 +529,19 @@ fn main() {
                 let mut o = out.lock();
                 writeln!(o, "{}", s).unwrap();
                 o.flush().unwrap();
-                n += 1;
             }
             "E5" | "E7" => {
+                let n = counter.fetch_add(1, Ordering::Relaxed);
                 {
                     let mut o = out.lock();
                     writeln!(o, "BEGIN {}", n).unwrap();
                     o.flush().unwrap();
                 }
                 let a: Vec<&str> = tok[1..].to_vec();
-                let s = if tok[0] == "E5" {
-                    run_on_small_stack(stack, || e5(&a))
-                } else {
-                    run_on_small_stack(stack, || e7(&a))
-                };
+                let s = if tok[0] == "E5" { guarded(|| e5(&a)) } else { guarded(|| e7(&a)) };
                 let mut o = out.lock();
                 writeln!(o, "{}", s).unwrap();
                 o.flush().unwrap();
-                n += 1;
             }
             other => {
                 eprintln!("unknown op {}", other);
@@ -530,6 +549,4 @@ fn main() {
             }
         }
     }
-    let mut o = out.lock();
-    writeln!(o, "END {}", n).unwrap();
 }
